@@ -101,6 +101,28 @@ ACCESSORS = [
 _PEND = {}
 
 
+class _OffsetLike:
+    """A calendar offset in the style of dateutil.relativedelta: not a timedelta, but with its attribute names, and with its own
+    reflected operators (the result names the hook that ran and the wall clock it was given)."""
+    days, seconds, microseconds, months = 1, 2, 3, 1
+
+    def __radd__(self, other):
+        return ("__radd__", other.year, other.month, other.day, other.hour, other.minute, other.second, other.microsecond)
+
+    def __add__(self, other):
+        return ("__add__", other.year, other.month, other.day, other.hour, other.minute, other.second, other.microsecond)
+
+    def __rsub__(self, other):
+        return ("__rsub__", other.year, other.month, other.day, other.hour, other.minute, other.second, other.microsecond)
+
+
+class _BareAttrs:
+    days, seconds, microseconds = 1, 2, 3
+
+
+_OFFSET_LIKE, _BARE = _OffsetLike(), _BareAttrs()
+
+
 def check_state(acc, pendulum, z, inst):
     if not _PEND:
         _PEND.update(UTC=pendulum.UTC, zone=_tz(pendulum, "America/St_Johns"), fixed=pendulum.FixedTimezone(-34200))
@@ -151,6 +173,16 @@ def check_state(acc, pendulum, z, inst):
         if type(v) is not t:
             acc.mismatch("result-type", k, case, type(v).__name__, t.__name__)
     check_constructors(acc, pendulum, z, inst, x, b, case)
+    # operands that are NOT timedeltas but look like one (days / seconds / microseconds attributes) and implement the reflected
+    # operators themselves, as dateutil's relativedelta does: like the native class, the DateTime leaves the operation to them
+    for name, fn, nat in (("x+offset-like", lambda: x + _OFFSET_LIKE, lambda: b + _OFFSET_LIKE), ("offset-like+x", lambda: _OFFSET_LIKE + x, lambda: _OFFSET_LIKE + b),
+                          ("x-offset-like", lambda: x - _OFFSET_LIKE, lambda: b - _OFFSET_LIKE), ("x+bare-attrs", lambda: x + _BARE, lambda: b + _BARE),
+                          ("x==offset-like", lambda: x == _OFFSET_LIKE, lambda: b == _OFFSET_LIKE), ("x<offset-like", lambda: x < _OFFSET_LIKE, lambda: b < _OFFSET_LIKE)):
+        got, want = _try(fn), _try(nat)
+        acc.c["evaluations"] += 1
+        acc.c["transitions"] += 1
+        if got != want:
+            acc.mismatch("operator", f"foreign-operand/{name}", dict(case, op=name), got, want)
     if z is None or isinstance(z, int) or z == "UTC":
         # +/- with Duration operands that are SHARED by all states of the process (a module-level Duration, the library's own
         # resolution constants): the same answer as the native twin with the equal timedelta, every time
